@@ -4,8 +4,13 @@ Every clause builds the hypergraph through the public API from the abstract
 content of the case (labels + index sets), calls one projection and compares
 the returned networkx graph / id table / Hypergraph with the definition
 evaluated by brute force on the abstract content (plain sets, exact Fractions).
+Afterwards the input must still hold the abstract content, and the same call,
+repeated after the caller has emptied the first result and filled it with junk,
+must give the same answer.  The line-graph clauses also call with omitted
+arguments (documented defaults intersection / s=1 / unweighted).
 """
 
+import numbers
 from collections import Counter
 from fractions import Fraction
 from itertools import combinations
@@ -20,12 +25,29 @@ ASSUMPTIONS = [
     "oracle = the definitions in the property text evaluated on plain Python sets and exact "
     "Fractions (hgxverif/oracles/projcent.py, hgxverif/props/c10.py); networkx is trusted only as "
     "a container (nodes(), has_edge, edge data)",
-    "Jaccard thresholds are rationals p/q with q <= 6 handed over as the correctly rounded double "
-    "p/q: for similarities with denominators <= 10 the float comparison `>=` and the exact "
-    "rational one coincide (monotone correctly rounded division, distinct values >= 1/60 apart)",
-    "weighted line graphs: the `weight` attribute must equal the intersection size exactly, the "
-    "Jaccard value within 1e-12 absolute (one division; allows an algebraically equal formula); "
-    "the attribute of an unweighted line graph is unspecified and not inspected",
+    "Jaccard thresholds are rationals p/q with q <= 10 handed over as the correctly rounded double "
+    "p/q (or its neighbouring double): for similarities with denominators <= 10 (hyperedges of "
+    "size <= 5) the float comparison `>=` and the exact rational one coincide (monotone correctly "
+    "rounded division, distinct values >= 1/100 apart)",
+    "weighted (undirected) line graphs: the `weight` attribute must equal the intersection size "
+    "exactly, the Jaccard value within 1e-12 absolute (one division; allows an algebraically "
+    "equal formula), any numbers.Real type; the attribute of an unweighted line graph is "
+    "unspecified and not inspected",
+    "directed line graph: the statement and the docstring of directed_line_graph promise the arcs "
+    "only, not the value of the `weight` attribute (the statement attaches 'carrying that value as "
+    "weight' to the undirected line graph): the weights are classified by label "
+    "(arc-weight-equals-similarity / arc-weight-other), not demanded",
+    "directed input is in scope only for directed_line_graph / DirectedHypergraph.to_line_graph; "
+    "bipartite_projection, clique_projection and simplicial_complex are annotated and documented "
+    "for Hypergraph and are exercised on Hypergraph only (bipartite_projection of a "
+    "DirectedHypergraph raises KeyError today; not judged)",
+    "omitted arguments mean the documented signature defaults distance='intersection', s=1, "
+    "weighted=False (signature of line_graph / directed_line_graph / to_line_graph)",
+    "projections are read-only: afterwards get_nodes() / get_edges() of the input still equal the "
+    "abstract content and get_weights(asdict=True) equals what it was before the call; the "
+    "returned graph / id table / Hypergraph is the caller's: clearing it and putting junk into it "
+    "must not change the answer of the next identical call (compared through the id table, vertex "
+    "names are not assumed to repeat)",
     "clique projection with keep_isolated=False: vertices without a neighbour may or may not be "
     "listed (the statement only says isolated nodes are kept when asked); every listed vertex must "
     "be a node and every node with a neighbour must be listed",
@@ -76,8 +98,88 @@ def _ckey(x):
     return repr(x)
 
 
+def _cdedge(e):
+    s, t = e
+    return (cedge(s), cedge(t))
+
+
+def _weights_of(h, canon):
+    return sorted(((canon(e), w) for e, w in h.get_weights(asdict=True).items()), key=repr)
+
+
+def _untouched(what, h, nodes, edges, w_before, canon=cedge):
+    """The projection must leave its input alone: nodes / hyperedges (edges: Counter of
+    canonical forms) still the abstract content, weights what they were before the call."""
+    got_nodes = list(h.get_nodes())
+    require(Counter(got_nodes) == Counter(nodes),
+            lambda: "%s changed its input: get_nodes() is now %r, the hypergraph has the nodes %r"
+            % (what, sorted(got_nodes, key=repr), sorted(nodes, key=repr)), key="input-modified")
+    got_edges = Counter(canon(e) for e in h.get_edges())
+    require(got_edges == edges,
+            lambda: "%s changed its input: get_edges() is now %r, the hypergraph has the "
+                    "hyperedges %r" % (what, sorted(got_edges.elements(), key=repr),
+                                       sorted(edges, key=repr)), key="input-modified")
+    w_after = _weights_of(h, canon)
+    require(w_after == w_before,
+            lambda: "%s changed its input: get_weights(asdict=True) was %r before the call and is "
+                    "%r afterwards" % (what, w_before, w_after), key="input-modified")
+
+
+JUNK = ("junk", 0)
+JUNK2 = ("junk", 1)
+
+
+def _scribble(g, table=None):
+    """The caller does what it likes with the returned objects."""
+    g.clear()
+    g.add_edge(JUNK, JUNK2, weight=99)
+    if table is not None:
+        table.clear()
+        table[JUNK] = JUNK2
+
+
+def _safe(f, x):
+    """f(x), or a printable stand-in when x is caller's junk that f cannot read."""
+    try:
+        return f(x)
+    except Violation:
+        raise
+    except Exception:  # noqa
+        return ("?", repr(x))
+
+
+def _graph_content(g, table, canon, directed, with_weight):
+    """Vertices and links of a returned graph named through the id table."""
+    names = {v: _safe(canon, o) for v, o in table.items()} if table is not None else None
+    obj = (lambda v: v) if names is None else (lambda v: names.get(v, ("?", repr(v))))
+    verts = Counter(obj(v) for v in g.nodes())
+    links = Counter()
+    for u, v, d in g.edges(data=True):
+        a, b = obj(u), obj(v)
+        if not directed and repr(b) < repr(a):
+            a, b = b, a
+        links[(a, b, repr(d.get("weight")) if with_weight else None)] += 1
+    return verts, links
+
+
+def _same_again(what, first, second):
+    require(first == second,
+            lambda: "%s: asked a second time on the unchanged hypergraph after the first result "
+                    "had been cleared and filled with junk by the caller, the answer differs: "
+                    "vertices/links %r, first answer %r" % (what, _brief(second), _brief(first)),
+            key="result-aliased")
+
+
+def _brief(c):
+    return tuple(sorted(x.items(), key=repr) for x in c)
+
+
 # --------------------------------------------------------------------------
 # C10.bipartite
+
+
+def _bip_obj(o):
+    return ("e", cedge(o)) if isinstance(o, (tuple, list)) else ("n", o)
 
 
 def s_bipartite(tier):
@@ -88,6 +190,7 @@ def check_bipartite(case, ctx):
     from hypergraphx.representations.projections import bipartite_projection
     nodes, edges = P.content(case)
     h = P.build_hypergraph(case)
+    w0 = _weights_of(h, cedge)
     g, table = bipartite_projection(h)
     _graph_kind(g, False, "bipartite_projection")
     _labels(ctx, case, nodes, _covered(edges), len(edges))
@@ -96,9 +199,7 @@ def check_bipartite(case, ctx):
             lambda: "bipartite_projection: vertex set %r differs from the keys of the id table %r"
             % (sorted(verts, key=repr), sorted(table.keys(), key=repr)), key="bip-table-keys")
     exp_objs = Counter([("n", x) for x in nodes] + [("e", tuple(sorted(e))) for e in edges])
-    obj = {}
-    for v, o in table.items():
-        obj[v] = ("e", cedge(o)) if isinstance(o, (tuple, list)) else ("n", o)
+    obj = {v: _bip_obj(o) for v, o in table.items()}
     got_objs = Counter(obj.values())
     require(got_objs == exp_objs,
             lambda: "bipartite_projection: id table must be a bijection onto nodes + hyperedges; "
@@ -127,6 +228,11 @@ def check_bipartite(case, ctx):
             lambda: "bipartite_projection: %d links, expected %d memberships"
             % (g.number_of_edges(), len(exp_links)), key="bip-links")
     ctx.nontrivial(len(edges) >= 2 and any(len(e & f) for e, f in combinations(edges, 2)))
+    _untouched("bipartite_projection", h, nodes, Counter(tuple(sorted(e)) for e in edges), w0)
+    first = _graph_content(g, table, _bip_obj, False, False)
+    _scribble(g, table)
+    g2, table2 = bipartite_projection(h)
+    _same_again("bipartite_projection", first, _graph_content(g2, table2, _bip_obj, False, False))
 
 
 # --------------------------------------------------------------------------
@@ -145,6 +251,7 @@ def check_clique(case, ctx):
     nodes, edges = P.content(hc)
     h = P.build_hypergraph(hc)
     keep = case["keep_isolated"]
+    w0 = _weights_of(h, cedge)
     g = clique_projection(h) if keep is None else clique_projection(h, keep_isolated=keep)
     _graph_kind(g, False, "clique_projection")
     _labels(ctx, hc, nodes, _covered(edges), len(edges))
@@ -179,23 +286,92 @@ def check_clique(case, ctx):
                 % (keep, sorted(verts, key=repr), sorted(paired, key=repr),
                    sorted(nodes, key=repr)), key="clique-vertices")
     ctx.nontrivial(bool(exp_pairs) and bool(nodes - paired))
+    what = "clique_projection(keep_isolated=%r)" % (keep,)
+    _untouched(what, h, nodes, Counter(tuple(sorted(e)) for e in edges), w0)
+    first = _graph_content(g, None, None, False, False)
+    _scribble(g)
+    g2 = clique_projection(h) if keep is None else clique_projection(h, keep_isolated=keep)
+    second = _graph_content(g2, None, None, False, False)
+    if not keep:
+        # which unpaired nodes are listed is unspecified: compare the paired vertices only and
+        # demand that every other vertex is a node
+        require(set(second[0]) <= nodes,
+                lambda: "%s asked a second time: vertices %r are not nodes of the hypergraph"
+                % (what, sorted(set(second[0]) - nodes, key=repr)), key="result-aliased")
+        first = (Counter({v: c for v, c in first[0].items() if v in paired}), first[1])
+        second = (Counter({v: c for v, c in second[0].items() if v in paired}), second[1])
+    _same_again(what, first, second)
 
 
 # --------------------------------------------------------------------------
 # C10.line_graph
 
 
+VIAS = ["function", "function-kw", "method", "defaults", "defaults-method"]
+
+
+def _config(draw, present_of):
+    """distance / threshold / weighted / calling convention.  One case in six asks for the
+    documented defaults (intersection, s=1, unweighted) without passing any argument; via
+    'defaults*' passes by keyword and leaves out the arguments marked in `omit` that sit at
+    their default."""
+    if draw(st.integers(0, 5)) == 3:     # not an end point: Hypothesis favours those
+        return {"distance": "intersection", "s": [1, 1], "weighted": False,
+                "via": draw(st.sampled_from(VIAS[3:])), "omit": [True, True, True]}
+    distance = draw(st.sampled_from(["intersection", "jaccard"]))
+    pq = draw(P.thresholds(distance, [v for v in present_of(distance) if v > 0], max_den=10))
+    via = draw(st.sampled_from(VIAS))
+    omit = [False, False, False]
+    if via.startswith("defaults"):
+        omit = draw(st.lists(st.booleans(), min_size=3, max_size=3))
+        if not any(omit):
+            omit = [True, True, True]
+    return {"distance": distance, "s": pq, "weighted": draw(st.booleans()), "via": via,
+            "omit": omit}
+
+
+def _call_line(case, ctx, fn, h, s_arg):
+    """Call fn(h, ...) / h.to_line_graph(...) the way the case says; returns a closure that
+    repeats the identical call."""
+    distance, weighted, via = case["distance"], case["weighted"], case["via"]
+    if via == "function":
+        return lambda: fn(h, distance, s_arg, weighted)
+    if via == "function-kw":
+        return lambda: fn(h, weighted=weighted, s=s_arg, distance=distance)
+    if via == "method":
+        return lambda: h.to_line_graph(distance=distance, s=s_arg, weighted=weighted)
+    omit = case.get("omit") or [True, True, True]
+    kw, left_out = {}, []
+    if omit[0] and distance == "intersection":
+        left_out.append("distance")
+    else:
+        kw["distance"] = distance
+    if omit[1] and list(case["s"]) == [1, 1]:
+        left_out.append("s")
+    else:
+        kw["s"] = s_arg
+    if omit[2] and weighted is False:
+        left_out.append("weighted")
+    else:
+        kw["weighted"] = weighted
+    for a in left_out:
+        ctx.label("omitted-" + a)
+    if len(left_out) == 3:
+        ctx.label("all-arguments-omitted")
+    if via == "defaults":
+        return lambda: fn(h, **kw)
+    return lambda: h.to_line_graph(**kw)
+
+
 @st.composite
 def s_line_cases(draw, tier):
-    hc = draw(P.hypergraph_cases(max_nodes=8, min_edges=0,
-                                 max_edges=7 if tier == "quick" else 10))
-    distance = draw(st.sampled_from(["intersection", "jaccard"]))
+    hc = draw(P.hypergraph_cases(max_nodes=10, min_edges=0,
+                                 max_edges=8 if tier == "quick" else 10))
     _, edges = P.content(hc)
-    present = [P.exact_sim(distance, a, b) for a, b in combinations(edges, 2)]
-    pq = draw(P.thresholds(distance, [v for v in present if v > 0]))
-    return {"h": hc, "distance": distance, "s": pq,
-            "weighted": draw(st.booleans()),
-            "via": draw(st.sampled_from(["function", "function-kw", "method"]))}
+    cfg = _config(draw, lambda distance: [P.exact_sim(distance, a, b)
+                                          for a, b in combinations(edges, 2)])
+    cfg["h"] = hc
+    return cfg
 
 
 def _table_keys(what, g, table):
@@ -219,13 +395,11 @@ def check_line_graph(case, ctx):
     if nudged:
         ctx.label("threshold-one-ulp-%s-a-rational" % ("above" if nudged > 0 else "below"))
     s_arg = P.threshold_arg(distance, case["s"])
-    if case["via"] == "function":
-        g, table = line_graph(h, distance, s_arg, weighted)
-    elif case["via"] == "function-kw":
-        g, table = line_graph(h, weighted=weighted, s=s_arg, distance=distance)
-    else:
-        g, table = h.to_line_graph(distance=distance, s=s_arg, weighted=weighted)
-    what = "line_graph(distance=%r, s=%r, weighted=%r)" % (distance, s_arg, weighted)
+    call = _call_line(case, ctx, line_graph, h, s_arg)
+    w0 = _weights_of(h, cedge)
+    g, table = call()
+    what = "line_graph(distance=%r, s=%r, weighted=%r) [%s]" % (distance, s_arg, weighted,
+                                                                case["via"])
     _graph_kind(g, False, what)
     _labels(ctx, hc, nodes, _covered(edges), len(edges))
     ctx.label(distance, "weighted" if weighted else "unweighted", "via-" + case["via"])
@@ -241,9 +415,11 @@ def check_line_graph(case, ctx):
                 lambda: "%s: self-loop on vertex %r (hyperedge %r)" % (what, u, of[u]),
                 key="lg-self-loop")
     n_exp = 0
+    sims = []
     for u, v in combinations(verts, 2):
         a, b = set(of[u]), set(of[v])
         sim = P.exact_sim(distance, a, b)
+        sims.append(sim)
         exp = sim >= s_exact
         n_exp += exp
         if sim == s_exact or (nudged and sim == s_base):
@@ -257,8 +433,9 @@ def check_line_graph(case, ctx):
                                                  "" if exp else "not ", got), key="lg-adjacency")
         if exp and weighted:
             w = g[u][v].get("weight")
-            ok = (w == sim.numerator if distance == "intersection"
-                  else (isinstance(w, (int, float)) and abs(w - sim.numerator / sim.denominator) <= 1e-12))
+            ok = (isinstance(w, numbers.Real) and not isinstance(w, bool)
+                  and (w == sim.numerator if distance == "intersection"
+                       else abs(w - sim.numerator / sim.denominator) <= 1e-12))
             require(ok, lambda: "%s: weight of the link between %r and %r is %r, expected the "
                                 "%s %s" % (what, of[u], of[v], w, distance, sim), key="lg-weight")
     require(g.number_of_edges() == n_exp,
@@ -269,6 +446,15 @@ def check_line_graph(case, ctx):
     if below_hit:
         ctx.label("pair-just-below-threshold")
     ctx.nontrivial(exact_hit and below_hit)
+    if any(sim.denominator > 6 for sim in sims):
+        ctx.label("similarity-with-denominator-7-to-10")
+    if s_base.denominator > 6:
+        ctx.label("threshold-with-denominator-7-to-10")
+    _untouched(what, h, nodes, exp_edges, w0)
+    first = _graph_content(g, table, cedge, False, weighted)
+    _scribble(g, table)
+    g2, table2 = call()
+    _same_again(what, first, _graph_content(g2, table2, cedge, False, weighted))
 
 
 # --------------------------------------------------------------------------
@@ -277,19 +463,13 @@ def check_line_graph(case, ctx):
 
 @st.composite
 def s_dline_cases(draw, tier):
-    dc = draw(P.directed_cases(max_nodes=6 if tier == "quick" else 7,
+    dc = draw(P.directed_cases(max_nodes=8 if tier == "quick" else 10,
                                max_edges=6 if tier == "quick" else 9))
-    distance = draw(st.sampled_from(["intersection", "jaccard"]))
     _, edges = P.directed_content(dc)
-    present = [P.exact_sim(distance, e[1], f[0]) for e in edges for f in edges if e != f]
-    pq = draw(P.thresholds(distance, [v for v in present if v > 0]))
-    return {"h": dc, "distance": distance, "s": pq, "weighted": draw(st.booleans()),
-            "via": draw(st.sampled_from(["function", "function-kw", "method"]))}
-
-
-def _cdedge(e):
-    s, t = e
-    return (cedge(s), cedge(t))
+    cfg = _config(draw, lambda distance: [P.exact_sim(distance, e[1], f[0])
+                                          for e in edges for f in edges if e != f])
+    cfg["h"] = dc
+    return cfg
 
 
 def check_directed_line_graph(case, ctx):
@@ -304,13 +484,11 @@ def check_directed_line_graph(case, ctx):
     if nudged:
         ctx.label("threshold-one-ulp-%s-a-rational" % ("above" if nudged > 0 else "below"))
     s_arg = P.threshold_arg(distance, case["s"])
-    if case["via"] == "function":
-        g, table = directed_line_graph(h, distance, s_arg, weighted)
-    elif case["via"] == "function-kw":
-        g, table = directed_line_graph(h, weighted=weighted, s=s_arg, distance=distance)
-    else:
-        g, table = h.to_line_graph(distance=distance, s=s_arg, weighted=weighted)
-    what = "directed_line_graph(distance=%r, s=%r, weighted=%r)" % (distance, s_arg, weighted)
+    call = _call_line(case, ctx, directed_line_graph, h, s_arg)
+    w0 = _weights_of(h, _cdedge)
+    g, table = call()
+    what = "directed_line_graph(distance=%r, s=%r, weighted=%r) [%s]" % (distance, s_arg, weighted,
+                                                                         case["via"])
     _graph_kind(g, True, what)
     _labels(ctx, dc, nodes, _covered([a | b for a, b in edges]), len(edges))
     ctx.label(distance, "weighted" if weighted else "unweighted", "via-" + case["via"])
@@ -322,6 +500,7 @@ def check_directed_line_graph(case, ctx):
             % (what, sorted(exp_edges), sorted(of.values())), key="dlg-table-bijection")
     exact_hit = below_hit = asym = False
     n_exp = 0
+    sims, weight_kinds = [], set()
     for u in verts:
         require(not g.has_edge(u, u),
                 lambda: "%s: self-loop on vertex %r (hyperedge %r)" % (what, u, of[u]),
@@ -345,13 +524,14 @@ def check_directed_line_graph(case, ctx):
                             "so the arc must %sexist; has_edge=%r"
                     % (what, of[u], of[v], distance, sim, s_exact, "" if exp else "not ", got),
                     key="dlg-adjacency")
+            sims.append(sim)
             if exp and weighted:
+                # not demanded (see ASSUMPTIONS): classified only
                 w = g[u][v].get("weight")
-                ok = (w == sim.numerator if distance == "intersection"
-                      else (isinstance(w, (int, float))
-                            and abs(w - sim.numerator / sim.denominator) <= 1e-12))
-                require(ok, lambda: "%s: weight of the arc %r -> %r is %r, expected the %s %s"
-                        % (what, of[u], of[v], w, distance, sim), key="dlg-weight")
+                ok = (isinstance(w, numbers.Real) and not isinstance(w, bool)
+                      and (w == sim.numerator if distance == "intersection"
+                           else abs(w - sim.numerator / sim.denominator) <= 1e-12))
+                weight_kinds.add("arc-weight-equals-similarity" if ok else "arc-weight-other")
     require(g.number_of_edges() == n_exp,
             lambda: "%s: %d arcs, expected %d" % (what, g.number_of_edges(), n_exp),
             key="dlg-adjacency")
@@ -362,6 +542,20 @@ def check_directed_line_graph(case, ctx):
     if asym:
         ctx.label("one-way-arc")
     ctx.nontrivial(exact_hit and (below_hit or asym))
+    for k in sorted(weight_kinds):
+        ctx.label(k)
+    if "arc-weight-other" in weight_kinds:
+        ctx.exclude("weight attribute of a weighted directed line graph is not the similarity "
+                    "(value not promised)")
+    if any(sim.denominator > 6 for sim in sims):
+        ctx.label("similarity-with-denominator-7-to-10")
+    if s_base.denominator > 6:
+        ctx.label("threshold-with-denominator-7-to-10")
+    _untouched(what, h, nodes, exp_edges, w0, canon=_cdedge)
+    first = _graph_content(g, table, _cdedge, True, False)
+    _scribble(g, table)
+    g2, table2 = call()
+    _same_again(what, first, _graph_content(g2, table2, _cdedge, True, False))
 
 
 # --------------------------------------------------------------------------
@@ -376,7 +570,10 @@ def check_simplicial(case, ctx):
     from hypergraphx.representations.simplicial_complex import simplicial_complex
     nodes, edges = P.content(case)
     h = P.build_hypergraph(case)
+    w0 = _weights_of(h, cedge)
     S = simplicial_complex(h)
+    require(S is not h, "simplicial_complex(h) returned its argument h itself instead of a new "
+                        "Hypergraph", key="sc-same-object")
     _labels(ctx, case, nodes, _covered(edges), len(edges))
     got = [cedge(e) for e in S.get_edges()]
     if () in got:
@@ -405,6 +602,20 @@ def check_simplicial(case, ctx):
         ctx.label("nested-input")
     ctx.nontrivial(len(edges) >= 2 and any(len(e) >= 3 for e in edges)
                    and any(a & b for a, b in combinations(edges, 2)))
+    in_edges = Counter(tuple(sorted(e)) for e in edges)
+    _untouched("simplicial_complex", h, nodes, in_edges, w0)
+    # the result belongs to the caller: empty it, put junk into it; the input and the next
+    # answer must not notice
+    for e in list(S.get_edges()):
+        S.remove_edge(e)
+    S.add_edge(("junk-a", "junk-b"))
+    _untouched("simplicial_complex (after the caller modified the returned complex)", h, nodes,
+               in_edges, w0)
+    again = Counter(cedge(e) for e in simplicial_complex(h).get_edges())
+    require(again == Counter(got),
+            lambda: "simplicial_complex: asked a second time after the caller emptied the first "
+                    "result, the hyperedges are %r, first answer %r"
+            % (sorted(again.elements(), key=repr), sorted(got, key=repr)), key="result-aliased")
 
 
 # --------------------------------------------------------------------------
